@@ -15,6 +15,18 @@ git -C /repo worktree add -q --detach $wt HEAD || exit 1
 cp $src/patch.diff $out/patch.diff
 if ! git -C $wt apply $out/patch.diff; then echo "PATCH DOES NOT APPLY"; git -C /repo worktree remove --force $wt; exit 1; fi
 (cd $wt && go build ./...) || { echo "DOES NOT BUILD"; git -C /repo worktree remove --force $wt; exit 1; }
+# demonstration: DEMO_FILES="relpath ..." (copied from the agent's worktree), DEMO_CMD="command run inside the worktree"
+if [ -n "$DEMO_CMD" ]; then
+  mkdir -p $out/demo
+  for f in $DEMO_FILES; do mkdir -p $wt/$(dirname $f); cp /tmp/seed-$id/$f $wt/$f; cp /tmp/seed-$id/$f $out/demo/; done
+  echo "== demo WITH the change (must fail)"
+  (cd $wt && eval "$DEMO_CMD" > $out/demo_with.txt 2>&1; echo "demo exit with change: $?") | tee -a $out/demo_result.txt
+  git -C $wt apply -R $out/patch.diff
+  echo "== demo WITHOUT the change (must pass)"
+  (cd $wt && eval "$DEMO_CMD" > $out/demo_without.txt 2>&1; echo "demo exit without change: $?") | tee -a $out/demo_result.txt
+  git -C $wt apply $out/patch.diff
+  for f in $DEMO_FILES; do rm -f $wt/$f; done
+fi
 echo "== test suite on patched tree"
 (cd $wt && MUREX_TEST_NO_HTTP=true nice -n -10 go test -vet=off -count=1 -p 3 -json ./... 2>/dev/null | python3 -c "
 import sys,json
